@@ -2,6 +2,7 @@ import Srctools.Wire
 import Srctools.Model.C17
 import Srctools.Model.C17IO
 /-! Driver for the instance-collapse model (C17), scalars = `Rat` transmitted as `[num, den]`.
+every request may carry "fold":[[cp, cp']…] = per-character case fold of its non-ASCII characters (CharFold)
 requests:
   {"op":"collapse","inst":{"name":[cp],"style":n,"fixup":[[[cp],[cp]]…],"R":[9 rat],"o":[3 rat]},
    "tmpl":{"brushes":[solid…],"ents":[ent…]}}                      → {"brushes":[…],"ents":[…]}
@@ -188,6 +189,20 @@ def ioEntOf (j : Json) : Except String IOEnt := do
   pure { isProxy := ← j.getObjValAs? Bool "proxy", name := ← Wire.strOfCodes (← j.getObjVal? "name"),
          outs := ← listOf outOf (← j.getObjVal? "outs") }
 
+/-- optional `"fold":[[cp, cp']…]`: the per-character case fold for the non-ASCII characters of the
+request (everything not listed folds like ASCII). -/
+def foldOfReq (j : Json) : Except String CharFold := do
+  match j.getObjVal? "fold" with
+  | .error _ => pure CharFold.ascii
+  | .ok fj =>
+    let pairs ← listOf (fun p => do
+      let a ← Wire.natList p
+      if a.length != 2 then throw "fold: need [char, folded]"
+      pure (Char.ofNat (a.getD 0 0), Char.ofNat (a.getD 1 0))) fj
+    pure ⟨fun c => match pairs.find? (·.1 == c) with
+      | some q => q.2
+      | none => lowerAscii c⟩
+
 def outcomeStr : Outcome → String
   | .done => "done"
   | .recursion => "recursion"
@@ -195,6 +210,8 @@ def outcomeStr : Outcome → String
 
 def handle (j : Json) : Except String Json := do
   let op ← j.getObjValAs? String "op"
+  let cf ← foldOfReq j
+  have : CharFold := cf
   match op with
   | "collapse" =>
     let I ← instOf (← j.getObjVal? "inst")
